@@ -29,7 +29,10 @@ def make_run(seed, i):
     clock = {"start": crng.choice(CLOCKS) + crng.randrange(0, 86400),
              "steps": [0] + [crng.choice([0, 1, -3600, 86400 * 365, -86400 * 400]) for _ in range(3)]}
     return {"scenario": sc, "clock": clock, "glob_seed": crng.getrandbits(32),
-            "after_prior_command": crng.random() < 0.15}
+            "after_prior_command": crng.random() < 0.15,
+            # ... and that earlier command saw OLDER CONTENTS at the same paths (every file was rewritten in between,
+            # sometimes within the timestamp granularity: same mtime)
+            "prior_saw_older_contents": crng.random() < 0.5, "rewrite_keeps_mtime": crng.random() < 0.3}
 
 
 def nontrivial(sc):
@@ -94,6 +97,27 @@ def prior_command(sc):
     return p
 
 
+def older_version(fmt, text):
+    """Another valid document of the same format and the same outer structure: every object gets one more key."""
+    import json
+
+    def walk(v):
+        if isinstance(v, dict):
+            d = {k: walk(x) for k, x in v.items()}
+            d["legacy_field"] = 1
+            return d
+        if isinstance(v, list):
+            return [walk(x) for x in v]
+        return v
+
+    if fmt == "ini":
+        return text + "\nlegacy_option = 1\n" if "[" in text else text
+    try:
+        return json.dumps(walk(json.loads(text)), ensure_ascii=False)
+    except ValueError:
+        return text  # (hand-written YAML that is not JSON: left as it is)
+
+
 def evaluate(pool, runs):
     specs = []
     for r in runs:
@@ -104,6 +128,11 @@ def evaluate(pool, runs):
             first["then"] = {"argv": sp["argv"]}
             first["out_path"] = sp.get("out_path")
             first["files"] = dict(first["files"], **{"out/.keep": {"text": ""}})
+            if r.get("prior_saw_older_contents"):
+                current = {k: v for k, v in first["files"].items() if k != "out/.keep" and "text" in v}
+                first["files"] = dict(first["files"], **{k: dict(v, text=older_version(r["scenario"]["format"], v["text"]))
+                                                         for k, v in current.items()})
+                first["then"]["files"] = {k: dict(v, keep_mtime=bool(r.get("rewrite_keeps_mtime"))) for k, v in current.items()}
             sp = first
         specs.append(sp)
     skips = Skips(limit=max(5, len(runs) // 100))
@@ -164,7 +193,8 @@ def run(ctx):
     stats = {"both_fail": 0, "ok": 0, "with_o": 0, "glob_ge3": 0, "glob_nonidentity_order": 0, "m_and_l_same_name": 0,
              "two_model_names": 0, "yaml": 0, "ini": 0, "lookup": 0, "duplicate_arg": 0, "same_pattern_twice": 0,
              "second_command_of_its_process": 0, "custom_generator_spelling": 0, "defaults_omitted": 0,
-             "no_merge_option": 0}
+             "no_merge_option": 0, "second_command_after_files_were_rewritten": 0, "pattern_with_8_or_more_files": 0,
+             "empty_object_file": 0}
     distinct, samples = set(), []
     clock_reads, clock_min, clock_max = 0, None, None
     evaluations = 0
@@ -177,6 +207,9 @@ def run(ctx):
                 distinct.add(seeds.digest([sc["files"], sc["args"], sc["options"], rec["glob_calls"]]))
             stats["second_command_of_its_process"] += bool(r.get("after_prior_command"))
             stats["yaml"] += sc["format"] == "yaml"
+            stats["second_command_after_files_were_rewritten"] += bool(r.get("after_prior_command") and r.get("prior_saw_older_contents"))
+            stats["pattern_with_8_or_more_files"] += any(a.get("glob") and len(a["members"]) >= 8 for a in sc["args"])
+            stats["empty_object_file"] += any(k.startswith("empty_object_") for k in sc["files"])
             stats["custom_generator_spelling"] += "--code-generator" in r["spec"]["argv"] if "spec" in r else \
                 bool(sc["options"].get("custom_spelling"))
             stats["defaults_omitted"] += bool(sc["options"].get("omit_defaults"))
